@@ -8,6 +8,8 @@ import Mathlib.Algebra.Order.Field.Basic
 import Mathlib.Tactic.Ring
 import Mathlib.Tactic.Linarith
 import Mathlib.Tactic.FieldSimp
+import Mathlib.LinearAlgebra.FiniteDimensional.Lemmas
+import Mathlib.LinearAlgebra.Matrix.ToLin
 /-!
 # Shared spectral lemmas (C05, C06, C08–C11)
 
@@ -290,5 +292,59 @@ theorem IsTopEig.kyFan {A : Matrix n n K} (hA : Aᵀ = A) {V : Matrix n d K} {la
         have := mul_le_mul_of_nonneg_right (hj0 j (Finset.mem_univ j)) (sub_nonneg.2 (hm1 j))
         linarith
     _ = ∑ j, lam j := Finset.sum_congr rfl fun j _ => by ring
+
+/-! ### Sylvester inertia: soundness of the exact `LDLᵀ` certificate (`Model/Cert.lean`) -/
+
+omit [LinearOrder K] [IsStrictOrderedRing K] [DecidableEq n] in
+/-- the quadratic form of a sum of rank-one terms `M = Σ_k p k · l_k l_kᵀ` -/
+theorem quad_of_rank_one_sum {ι : Type*} [Fintype ι] (p : ι → K) (l : ι → n → K) (M : Matrix n n K)
+    (hM : ∀ i j, M i j = ∑ k, p k * l k i * l k j) (y : n → K) :
+    y ⬝ᵥ (M *ᵥ y) = ∑ k, p k * ((l k ⬝ᵥ y) * (l k ⬝ᵥ y)) := by
+  calc y ⬝ᵥ (M *ᵥ y) = ∑ i, ∑ j, ∑ k, p k * ((l k i * y i) * (l k j * y j)) := by
+        simp only [dotProduct, mulVec, hM, Finset.mul_sum, Finset.sum_mul]
+        exact Finset.sum_congr rfl fun i _ => Finset.sum_congr rfl fun j _ =>
+          Finset.sum_congr rfl fun k _ => by ring
+    _ = ∑ i, ∑ k, ∑ j, p k * ((l k i * y i) * (l k j * y j)) :=
+        Finset.sum_congr rfl fun i _ => Finset.sum_comm
+    _ = ∑ k, ∑ i, ∑ j, p k * ((l k i * y i) * (l k j * y j)) := Finset.sum_comm
+    _ = ∑ k, p k * ((l k ⬝ᵥ y) * (l k ⬝ᵥ y)) := by
+        refine Finset.sum_congr rfl fun k _ => ?_
+        rw [dotProduct, Finset.sum_mul_sum, Finset.mul_sum]
+        exact Finset.sum_congr rfl fun i _ => by rw [Finset.mul_sum]
+
+/-- **Sylvester inertia, the direction the certificate needs.**  If `M = Σ_k p k · l_k l_kᵀ` (any vectors `l_k` — e.g. the
+    columns produced by `Cert.ldlRun`, whose remainder was tested to be zero) and `M` is positive definite on the range of
+    `W` (`m` columns), then `m` is at most the number of positive pivots.  Hence: if the exact elimination of `B − σ·1`
+    has `p` positive pivots, `B` has no `p+1` independent directions on which it exceeds `σ`. -/
+theorem inertia_sound {ι m : Type*} [Fintype ι] [Fintype m] (p : ι → K) (l : ι → n → K) (M : Matrix n n K)
+    (hM : ∀ i j, M i j = ∑ k, p k * l k i * l k j)
+    (W : Matrix n m K) (hpos : ∀ c : m → K, c ≠ 0 → 0 < (W *ᵥ c) ⬝ᵥ (M *ᵥ (W *ᵥ c))) :
+    Fintype.card m ≤ Fintype.card {k // 0 < p k} := by
+  classical
+  by_contra hlt
+  rw [not_le] at hlt
+  -- the linear map c ↦ (l_k · (W c))_{k positive}
+  let φ : (m → K) →ₗ[K] ({k // 0 < p k} → K) :=
+    (Matrix.of fun (k : {k // 0 < p k}) (j : m) => ∑ i, l k.1 i * W i j).mulVecLin
+  have hker : LinearMap.ker φ ≠ ⊥ := by
+    apply LinearMap.ker_ne_bot_of_finrank_lt
+    simpa [Module.finrank_fintype_fun_eq_card] using hlt
+  obtain ⟨c, hc, hc0⟩ := (Submodule.ne_bot_iff _).1 hker
+  have hφ : ∀ k : {k // 0 < p k}, l k.1 ⬝ᵥ (W *ᵥ c) = 0 := by
+    intro k
+    have := congrFun (LinearMap.mem_ker.1 hc) k
+    simp only [φ, Matrix.mulVecLin_apply, mulVec, dotProduct, of_apply, Pi.zero_apply] at this
+    refine Eq.trans ?_ this
+    simp only [dotProduct, mulVec, Finset.mul_sum, Finset.sum_mul]
+    rw [Finset.sum_comm]
+    exact Finset.sum_congr rfl fun j _ => Finset.sum_congr rfl fun i _ => by ring
+  have hq := hpos c hc0
+  rw [quad_of_rank_one_sum p l M hM] at hq
+  have hle : ∑ k, p k * ((l k ⬝ᵥ (W *ᵥ c)) * (l k ⬝ᵥ (W *ᵥ c))) ≤ 0 := by
+    refine Finset.sum_nonpos fun k _ => ?_
+    by_cases hk : 0 < p k
+    · rw [hφ ⟨k, hk⟩]; simp
+    · exact mul_nonpos_of_nonpos_of_nonneg (not_lt.1 hk) (mul_self_nonneg _)
+  exact absurd hq (not_lt.2 hle)
 
 end TapkeeVerif.Spectral
